@@ -21,7 +21,7 @@ REAL_VS_STUB = {'real': ['kyupy.wave_sim kernels and host code (WaveSim, WaveSim
 ASSUMPTIONS = ['delays non-negative, finite, dyadic, <= 64 (beyond ~2^100 a delay added to TMIN stops being TMIN and the encoding of initial values breaks down - outside finite delays in any practical sense)',
                'input waveforms have strictly increasing transition times and fit the input-slot capacity 4',
                'RefEval: an unconnected trailing pin reads 0; every port/state element is a cut']
-EXPECTED_PROBES = ['overflow_occurred', 'faulted_run', 'custom_input_waveform', 'reuse_batches']
+EXPECTED_PROBES = ['inputs_rewritten_between_propagations', 'overflow_occurred', 'faulted_run', 'custom_input_waveform', 'reuse_batches']
 
 
 def gen(rng, tier, i):
@@ -34,11 +34,14 @@ def gen(rng, tier, i):
     elif r < 0.65: caps = {'default': 4, 'vec': None}
     elif r < 0.75: caps = {'default': 8, 'vec': None}
     else: caps = {'default': 64, 'vec': None}      # fault-free only
-    return {'script': script, 'sims': sims, 'delays': wavegen.gen_delays(rng, skew=rng.choice(['wild', 'wild', 'mild', 'equal'])), 'caps': caps,
+    case = {'script': script, 'sims': sims, 'delays': wavegen.gen_delays(rng, skew=rng.choice(['wild', 'wild', 'mild', 'equal'])), 'caps': caps,
             'argforms': wavegen.gen_argforms(rng), 'batches': wavegen.gen_batches(rng, n_max=3, sims=sims, p_custom=0.7, p_k=0.2, p_time=0.0), 'actrl': None,
             'cfg': {'cls': rng.choice(['cpu', 'cpu', 'gpu']), 'c_reuse': rng.random() < 0.4, 'strip_forks': rng.random() < 0.4,
                     'sched': wavegen.gen_order_sched(rng), 'block': wavegen.gen_block(rng)},
             'poison': {'vals': [rng.choice([0, 1, 7, 40, float(wsim.TMIN), float(wsim.TMAX), float(wsim.TMAX_OVL)]) for _ in range(5)]} if rng.random() < 0.4 else None}
+    for b in case['batches']:
+        if b['custom'] and rng.random() < 0.15: b['reprop'] = True; b['custom_late'] = True      # propagate, replace input waveforms in c, propagate again without a new s_to_c()
+    return case
 
 
 def execute(case):
